@@ -78,6 +78,8 @@ func (e *bcEngine) Gen(rng *rand.Rand, tier string, n int, emit func(string)) {
 	emit("conn ack:0:0 pub:1:7 pub:1:7 pa:7 pa:7")
 	emit("conn ack:0:0 ping pg pg pg eof")
 	emit("conn ack:0:0 ping pg pg pg pub:1:3 bad")
+	emit("conn ack:0:0 ack:0:0 ack:1:0 ack:0:0 pub:1:3 bad")
+	emit("conn ack:0:0 ack:0:5 ack:0:0 ping pg eof")
 	emit("conn ack:0:0 pub:1:5 disc pa:5")
 	emit("conn ack:0:0 sub:1:7 sa:7:0001")
 	emit("wf:1 conn lclose")
@@ -214,7 +216,11 @@ func (e *bcEngine) Gen(rng *rand.Rand, tier string, n int, emit func(string)) {
 				// foreign / unsolicited / wrong-kind acknowledgement
 				evs = append(evs, []string{"pa", "pr", "pc", "ua"}[rng.Intn(4)]+":"+fmt.Sprint(ids[rng.Intn(len(ids))]))
 			case x < 20:
-				evs = append(evs, fmt.Sprintf("sa:%d:00", ids[rng.Intn(len(ids))]))
+				if rng.Intn(3) == 0 {
+					evs = append(evs, "ack:0:0") // an unsolicited CONNACK after the handshake
+				} else {
+					evs = append(evs, fmt.Sprintf("sa:%d:00", ids[rng.Intn(len(ids))]))
+				}
 			case x < 22 && ncalls > 0:
 				evs = append(evs, fmt.Sprintf("cancel:%d", rng.Intn(ncalls)))
 			case x < 23:
@@ -355,6 +361,8 @@ func (e *bcEngine) Exec(f []string) Result {
 	}
 	var props []PropResult
 	var planMiss []string
+	var doneSeen bool
+	var errAtDone error
 	curEv := 0
 	var evRets [][]int // calls that returned during each event
 	pendingFast := ""
@@ -438,6 +446,26 @@ func (e *bcEngine) Exec(f []string) Result {
 			fastNext = true
 		case "conn":
 			start("conn", 0, 0)
+			if !inited {
+				// a watcher like the reconnect loop's: woken by Done(), it looks at Err() at once
+				go func() {
+					var ch <-chan struct{}
+					for i := 0; i < 20000 && ch == nil; i++ {
+						ch = c.Done()
+						if ch == nil {
+							time.Sleep(50 * time.Microsecond)
+						}
+					}
+					if ch == nil {
+						return
+					}
+					<-ch
+					e := c.Err()
+					mu.Lock()
+					doneSeen, errAtDone = true, e
+					mu.Unlock()
+				}()
+			}
 			inited = true
 		case "pub":
 			start("pub"+t[1], atoi(t[2]), 0)
@@ -867,6 +895,9 @@ func (e *bcEngine) Exec(f []string) Result {
 	}
 	if ended && !discCalledBefore(evs) && nClosed != 1 {
 		props = append(props, viol("C16", "closed-not-reported", "the connection ended without Disconnect, callbacks %v", cbsCopy))
+	}
+	if ended && !discCalled && doneSeen && errAtDone == nil && c.Err() != nil {
+		props = append(props, viol("C16", "done-before-error", "a goroutine woken by Done() saw Err()==nil although the connection had ended with %v: Done() was closed before the error was stored (the reconnect loop would take this for a graceful end and stop)", c.Err()))
 	}
 	if !ended && nClosed == 0 && !invalidSubAckSeen(rets) && c.Err() != nil {
 		props = append(props, viol("C16", "err-on-healthy-connection", "Err() = %v on a connection that has not ended", c.Err()))
